@@ -114,7 +114,7 @@ def replay_planted(kind, parity=(0, 0, 0), landscape=False):
         bad = []
         shapes = {tuple(16 + p for p in parity), tuple(17 - p for p in parity), (16, 17, 15), (15, 16, 17)}
         ms = [fl(cex.get(f"m{a}")) for a in range(3)]
-        mlist = [2.0, 2.5, 3.75]
+        mlist = [2.0, 2.5, 3.75, (3.0, 1.0, 2.0), (1.0, 2.5, 3.0)]  # isotropic and per-axis ranges
         if any(v is not None for v in ms):
             mlist.append(tuple(min(max(v if v is not None else 2.0, 0.0), 4.0) for v in ms))
         for shape in sorted(shapes):
